@@ -536,19 +536,43 @@ struct Range {
 }
 
 impl Range {
-    fn from_limits(min: &Option<RecordValue>, max: &Option<RecordValue>) -> Result<Option<Self>> {
-        if let (Some(RecordValue::Double(min)), Some(RecordValue::Double(max))) = (&min, &max) {
-            Ok(Some(Self::from_min_max(*min, *max)?))
-        } else if let (Some(RecordValue::Single(min)), Some(RecordValue::Single(max))) =
-            (&min, &max)
-        {
-            Ok(Some(Self::from_min_max(*min as f64, *max as f64)?))
-        } else if let (Some(RecordValue::Integer(min)), Some(RecordValue::Integer(max))) =
-            (&min, &max)
-        {
-            Ok(Some(Self::from_min_max(*min as f64, *max as f64)?))
+    /// Limits are used when both of them are given, whatever kind of number each of them is.
+    /// Scaled integer limits are raw values of a scaled integer record.
+    fn from_limits(
+        min: &Option<RecordValue>,
+        max: &Option<RecordValue>,
+        data_type: Option<&RecordDataType>,
+    ) -> Result<Option<Self>> {
+        let number = |value: &RecordValue| -> Option<f64> {
+            match (value, data_type) {
+                (RecordValue::Double(v), _) => Some(*v),
+                (RecordValue::Single(v), _) => Some(*v as f64),
+                (RecordValue::Integer(v), _) => Some(*v as f64),
+                (
+                    RecordValue::ScaledInteger(v),
+                    Some(RecordDataType::ScaledInteger { scale, offset, .. }),
+                ) => Some(*v as f64 * *scale + *offset),
+                (RecordValue::ScaledInteger(_), _) => None,
+            }
+        };
+        let (Some(min), Some(max)) = (min, max) else {
+            return Ok(None);
+        };
+        let (Some(first), Some(second)) = (number(min), number(max)) else {
+            return Ok(None);
+        };
+        let both_scaled = matches!(
+            (min, max),
+            (RecordValue::ScaledInteger(_), RecordValue::ScaledInteger(_))
+        );
+        if both_scaled {
+            // A negative scale reverses the order of the two limits
+            Ok(Some(Self::from_min_max(
+                first.min(second),
+                first.max(second),
+            )?))
         } else {
-            Ok(None)
+            Ok(Some(Self::from_min_max(first, second)?))
         }
     }
 
@@ -593,7 +617,8 @@ impl Range {
 
     fn intensity_from_pointcloud(pc: &PointCloud) -> Result<Option<Self>> {
         if let Some(limits) = &pc.intensity_limits {
-            let range = Self::from_limits(&limits.intensity_min, &limits.intensity_max)?;
+            let data_type = pc.prototype.iter().find(|p| p.name == RecordName::Intensity).map(|p| &p.data_type);
+            let range = Self::from_limits(&limits.intensity_min, &limits.intensity_max, data_type)?;
             if range.is_some() {
                 return Ok(range);
             }
@@ -617,7 +642,8 @@ impl Range {
             red_min, red_max, ..
         }) = &pc.color_limits
         {
-            let range = Self::from_limits(red_min, red_max)?;
+            let data_type = pc.prototype.iter().find(|p| p.name == RecordName::ColorRed).map(|p| &p.data_type);
+            let range = Self::from_limits(red_min, red_max, data_type)?;
             if range.is_some() {
                 return Ok(range);
             }
@@ -639,7 +665,8 @@ impl Range {
             ..
         }) = &pc.color_limits
         {
-            let range = Self::from_limits(green_min, green_max)?;
+            let data_type = pc.prototype.iter().find(|p| p.name == RecordName::ColorGreen).map(|p| &p.data_type);
+            let range = Self::from_limits(green_min, green_max, data_type)?;
             if range.is_some() {
                 return Ok(range);
             }
@@ -663,7 +690,8 @@ impl Range {
             blue_min, blue_max, ..
         }) = &pc.color_limits
         {
-            let range = Self::from_limits(blue_min, blue_max)?;
+            let data_type = pc.prototype.iter().find(|p| p.name == RecordName::ColorBlue).map(|p| &p.data_type);
+            let range = Self::from_limits(blue_min, blue_max, data_type)?;
             if range.is_some() {
                 return Ok(range);
             }
